@@ -466,13 +466,13 @@ def run(ctx):
             w = C20.Watcher(root, m0.home, common.build_yardl(), pkgdir=pkgs[0].dir)
             bad = False
             try:
-                if not w.wait_quiescent(1, limit_s=40):
+                if not w.wait_quiescent_patient(1, limit_s=40):
                     raise Inconclusive("watch-regenerate %s: the initial generation in watch mode did not finish within 40 s wall" % kind)
                 for k in range(1, len(pkgs)):
                     starts = w.counts()[0]
                     mk_ = mutmod.Mut(pkgs[k], root, langs=("python",))
                     mk_.write()
-                    if not w.wait_quiescent(starts + 1, limit_s=40):
+                    if not w.wait_quiescent_patient(starts + 1, limit_s=40):
                         raise Inconclusive("watch-regenerate %s: the watcher was not quiescent within 40 s wall after save %d (alive=%s)" % (kind, k, w.alive()))
                     ok_own = rt.PyEndpoint(mk_).copy("Trace", "bin", "ndjson", streams[k][0])
                     ctx.ev()
